@@ -58,7 +58,9 @@ def _convert_expr(e, variables_dict):
         elif e.op == Op.IF:
             return z3.If(operands[0], operands[1], operands[2])
         elif e.op == Op.ALLDIFF:
-            return z3.Distinct(operands)
+            if len(operands) == 0:
+                return z3.BoolVal(True)
+            return z3.Distinct([z3.IntVal(x) if isinstance(x, int) else x for x in operands])
 
 
 class Z3Backend(Backend):
